@@ -837,11 +837,9 @@ impl<R: Read> RdbReader<R> {
             .unwrap()
             .as_millis() as u64;
         
-        let ttl = if expiry_ms > now_ms {
-            Some(Duration::from_millis(expiry_ms - now_ms))
-        } else {
-            None // Already expired
-        };
+        // A deadline that passed while the server was down leaves no time to live at all
+        // (the key is loaded already expired), never "no expiry"
+        let ttl = Some(Duration::from_millis(expiry_ms.saturating_sub(now_ms)));
         
         self.read_key_value_with_type(storage, db, value_type, ttl)
     }
